@@ -61,7 +61,9 @@ Record cfg := {
   status : N;
   reason : bytes;
   close0 : bool;           (* Response.close before prepare(): request did not ask for keep-alive, or error path *)
-  pre : list header;       (* headers the application / errors.py put on the response (Date excluded) *)
+  pre : list header;       (* headers the application / errors.py put on the response (Date excluded);
+                              may contain the application's own Content-Length *)
+  cookies : list bytes;    (* OutputString() of the morsels of Response.cookie (request cookies are echoed) *)
   sized : bool;            (* body is a list of byte strings (str, bytes, list results); else an iterator *)
   stream : bool;           (* Response.stream *)
   chunks : list bytes      (* the encoded pieces of the body, in order *)
@@ -95,29 +97,37 @@ Definition eff_stream (c : cfg) : bool := negb (nobody_status (status c)) && str
 
 Definition total_len (l : list bytes) : N := fold_right (fun s a => N.of_nat (length s) + a) 0 l.
 
-Definition clen (c : cfg) : option N :=
-  if eff_sized c then Some (total_len (eff_chunks c)) else None.
+(* Content-Length: prepare() computes it for sized bodies and overwrites whatever the application set;
+   for an iterator body (generator, file) the application's own header, if any, is kept and used *)
+Definition app_cl (c : cfg) : option bytes := lookup k_cl (pre c).
+Definition cl_hdr (c : cfg) : option bytes :=
+  if eff_sized c then Some (dec (total_len (eff_chunks c))) else app_cl c.
+Definition has_cl (c : cfg) : bool := match cl_hdr c with Some _ => true | None => false end.
 
 Definition chunked (c : cfg) : bool :=
-  match clen c with
-  | Some _ => false
-  | None => if status c =? 413 then false else v11 c && negb (head c)
-  end.
+  if has_cl c then false
+  else if status c =? 413 then false else v11 c && negb (head c).
 
 Definition close1 (c : cfg) : bool :=
   if status c =? 413 then true
-  else match clen c with
-       | Some _ => close0 c
-       | None => if v11 c && negb (head c) then close0 c else true
-       end.
+  else if has_cl c then close0 c
+  else if v11 c && negb (head c) then close0 c else true.
+
+(* headers[k] = v on an existing key: the value changes, the position does not *)
+Definition set_hdr (k v : bytes) (hs : list header) : list header :=
+  map (fun h => if ci_is k (fst h) then (fst h, v) else h) hs.
 
 Definition out_headers (c : cfg) : list header :=
-  pre c
+  (if eff_sized c then set_hdr k_cl (dec (total_len (eff_chunks c))) (pre c) else pre c)
   ++ (match lookup k_ct (pre c) with
       | Some _ => []
       | None => [(str "Content-Type", str "text/html; charset=utf-8")]
       end)
-  ++ (match clen c with Some n => [(str "Content-Length", dec n)] | None => [] end)
+  ++ (match app_cl c with
+      | Some _ => []
+      | None => if eff_sized c then [(str "Content-Length", dec (total_len (eff_chunks c)))] else []
+      end)
+  ++ map (fun v => (str "Set-Cookie", v)) (cookies c)
   ++ (if chunked c then [(str "Transfer-Encoding", str "chunked")] else [])
   ++ (if v11 c
       then (if close1 c then [(str "Connection", str "close")] else [])
